@@ -168,6 +168,13 @@ pub fn run(outdir: &Path, tier: &str, seed: u64, shards: usize, _replay: Option<
                     .join("\n");
                 *dist.entry(format!("item/with deprecated values/strategy {:?}", opts.deprecation)).or_default() += 1;
             }
+            // every fourth schema mentions the enum in a directive-only `extend enum` BEFORE another enum and
+            // before its own definition (legal SDL, typical of schemas concatenated from several files): the
+            // extension adds no value, and the enum's variants are still exactly its values
+            if si % 4 == 0 {
+                sdl = format!("extend enum {} @note\n\nenum AuxEarlier {{\n  AUX_ONE\n  AUX_TWO\n}}\n\n{}", ename, sdl);
+                *dist.entry("item/directive-only extend enum before another enum and the definition".to_string()).or_default() += 1;
+            }
             let oc = runner::generate(&sdl, "graphql", &doc.render(), &opts);
             let rust_name = if norm { ename.to_upper_camel_case() } else { ename.to_string() };
             let mods = runner::modules(&oc);
